@@ -209,6 +209,7 @@ def verify_case(unit_name, case, prop=None, tier="quick", opts=None):
     for d in final:
         res["frame_diffs"].append(dict(path=-1, owner=d[0], attr=d[1], kind=d[2]))
     guard.restore(final)
+    canary_passed = []
     rng = random.Random(opts.get("seed", 0))
     n_wit = opts.get("witnesses", 4 if tier == "quick" else 32)
     for pi, (ctx, kind, val) in enumerate(paths):
@@ -257,8 +258,7 @@ def verify_case(unit_name, case, prop=None, tier="quick", opts=None):
             if d["verdict"] == "failed":
                 res["canaries_refuted"] += 1
             elif d["verdict"] == "proved":
-                res["status"] = "error"
-                res["notes"].append("CANARY PASSED: %s/%s on path %d" % (unit_name, n, pi))
+                canary_passed.append("CANARY PASSED: %s/%s on path %d" % (unit_name, n, pi))
         # witness: a concrete input of this path, run natively; outcome and clauses must agree
         if all_proved and (pi < n_wit or rng.random() < 0.05) and not opts.get("no_witness") and getattr(unit, "witness", True):
             m = _any_model(ctx.pc, timeout_ms, _small_prefs(rec["syms"]))
@@ -280,6 +280,14 @@ def verify_case(unit_name, case, prop=None, tier="quick", opts=None):
                             if (prop is None or p == prop or p == "*") and not b:
                                 res["status"] = "error"
                                 res["notes"].append("CROSS-CHECK: clause %s proved symbolically but false natively, inputs=%s" % (n, json.dumps(inp)[:400]))
+    if canary_passed:
+        # a unit-specific canary is a clause that is false *if the contract holds*; when the same case reports
+        # violations the premise is gone and the passing canary is only noted, otherwise the run is not trusted
+        if res["violations"]:
+            res["notes"].append("%d canaries passed on a case that reports violations (premise of the canary gone)" % len(canary_passed))
+        else:
+            res["status"] = "error"
+            res["notes"].extend(canary_passed[:8])
     fin = getattr(unit, "finalize", None)
     if fin is not None:
         for p, n, c in fin(case, [v["out"] for (_, k, v) in paths if k == "return"], [k for (_, k, v) in paths]):
